@@ -29,9 +29,23 @@ def _site_maps(prog, cg, eff, qn):
     return fs[0], rowmap.site_maps(prog, cg, eff, fs[0])
 
 
-def _srckey(src):
+_CUR = [None]     # function whose statements are being described (for resolving locals)
+
+
+def _srckey(src, depth=0):
     if src is None:
         return None
+    # a local initialised once (`const auto self = id();`) stands for its initialiser
+    if src.root and src.root[0] == 'local' and not src.path and not src.via and _CUR[0] is not None and depth < 3:
+        f = _CUR[0]
+        decl = [x for x in walk(f.body) if x.get('kind') == 'VarDecl' and x.get('id') == src.root[2]]
+        assigned = any(x.get('kind') == 'BinaryOperator' and x.get('opcode') == '=' and
+                       (strip(children(x)[0]).get('referencedDecl') or {}).get('id') == src.root[2]
+                       for x in walk(f.body))
+        if len(decl) == 1 and not assigned:
+            init = [y for y in children(decl[0]) if not y['kind'].endswith('Attr') and not y['kind'].endswith('Comment')]
+            if init:
+                return _srckey(rowmap.describe(init[-1]), depth + 1)
     if src.root and src.root[0] == 'call':
         return src.root[1]
     if src.root:
@@ -82,6 +96,7 @@ def forest_encodings(prog, cg, eff, chk, W1, only=None, paths=True):
         if only is not None and op not in only:
             continue
         f, sms = _site_maps(prog, cg, eff, qn)
+        _CUR[0] = f
         chk.analysed(f)
         by = {}
         for sm in sms:
